@@ -33,7 +33,15 @@ NOT_CARRIED = [
     "setter order vanish from wall_cfg), and the two are joined only on the concrete instance "
     "Instances/ObjectExamples.final_config_instance (vm_compute) and by the harness comparison of every history "
     "with the canonical history of its effective configuration (a stale table of another shape does make the raw "
-    "list matter: C16_final_config_refuted_stale_table)",
+    "list matter: C16_final_config_refuted_stale_table).  'Configuration equality' there is moreover LEIBNIZ equality "
+    "of the twelve descriptors (kind, shape, provenance and ownership tag): a dictionary / file round trip changes "
+    "kinds and ownership tags, so those two theorems do not relate a history to one that differs from it by a round "
+    "trip (Instances/NonVacuityB.v: cfg_eq_is_leibniz, hist3_not_cfg_eq).  That gap is closed by "
+    "C16_final_config_history_independent_sim (hypothesis: the configuration fields agree after the normalisation "
+    "norm of C15; implied by the old hypothesis, C16_cfg_eq_implies_normalised; conclusion: same classes up to the "
+    "first failure and, on success, the same receiver collection WITHOUT direct sound -- the direct sound reads the "
+    "unserialised _source); witness with a file and a dictionary round trip: "
+    "Instances/NonVacuityB.v, final_config_history_independent_sim_applies",
     "the configuration in force = the six geometry attributes, frequencies, air_attenuation, the two direction lists "
     "and brdf resolved through brdf_index; histories in which init_source_energy installed its default BRDF are "
     "refuted (C16_final_config_refuted_default_brdf, finding default_install_rebake); an overwritten table of another "
